@@ -68,6 +68,14 @@ pub fn c07(o: &Opts) -> Outcome {
                 return Outcome { cases, witness: Some(w) };
             }
         }
+        // a whole chunk of records without any valid k-mer, followed by more records (tiny memory ceiling: ~100 bases per chunk)
+        let mut gap: Vec<Vec<u8>> = vec![b"ACGGTCATTGACCAGTTAGGCATCAGGATCCATTGACA".to_vec()];
+        for _ in 0..60 { gap.push(b"ACGNAC".to_vec()); }
+        gap.push(b"TTGACCATGGCATTAGACCAGGATTACAGGACCATTA".to_vec());
+        for threads in [1usize, 2] {
+            cases += 1;
+            if let Some(w) = c07_one(&gap, 10, threads, 1e-7, false) { return Outcome { cases, witness: Some(w) }; }
+        }
         let few = vec![b"AAAAAAAAAAAAAAAAAAAA".to_vec(), b"AAAAAAAAAAAAAAA".to_vec(), b"ACG".to_vec()];
         for (threads, mem) in [(8usize, 6.0f64), (3, 1e-7)] {
             cases += 1;
